@@ -163,9 +163,9 @@ RECV_SEND_NOTE = ("Trusted: Lean kernel; the Lean models of SendTransaction / Re
 
 PROPS["C07"] = dict(
     title="Sender transmits exactly the source file: right bytes, offsets, sizes, checksum",
-    module="Cfdp.Props.C07e",
+    module="Cfdp.Props.C07t",
     namespace="Cfdp.Send",
-    theorems=["C07_data", "C07_nak_queue", "Cfdp.Loop.C07_eof"],
+    theorems=["C07_data", "C07_nak_queue", "Cfdp.Loop.C07_eof", "Cfdp.Loop.C07_first_pass", "C07_nak_answer"],
     engines=["send"],
     design="§6 C07",
     technique="Lean 4 invariant proof over all event histories of the sender model + differential correspondence with SendTransaction",
@@ -182,8 +182,7 @@ PROPS["C07"] = dict(
           "keep-alives, prompts, suspend/resume, cancel, report, ACK(EOF)/Finished at random rounds, timeouts at/just before deadlines. "
           "Non-trivial = a PDU was emitted or an indication raised."),
     assumptions=["the source file does not change between Put and EOF (metadata.file_size = length of the file read)", "0 < file_size_segment <= 65535"],
-    unproved=["first-pass tiling (offsets i*seg in order) and 'a NAK is answered with exactly the requested in-file part': checked by the send engine oracles (tiling, nak_answer) on the implementation",
-              "every PDU carries the transaction's ids/mode/direction and dataLen = payload length: send engine oracle (header) + byte-exact correspondence"],
+    unproved=["every PDU carries the transaction's ids/mode/direction and dataLen = payload length: send engine oracle (header) + byte-exact correspondence"],
 )
 
 PROPS["C19"] = dict(
@@ -258,11 +257,11 @@ PROPS["C04"] = dict(
 
 PROPS["C18"] = dict(
     title="Unacknowledged mode is one-way unless closure is requested; closure works",
-    module="Cfdp.Props.C18",
+    module="Cfdp.Props.C18s",
     namespace="Cfdp.Loop",
     theorems=["C18_recv_oneway", "C18_recv_silent_without_closure", "C18_complete_means_complete",
               "Cfdp.Send.C18_send_ends_on_eof", "Cfdp.Send.C18_send_waits", "Cfdp.Send.C18_send_reports_outcome",
-              "Cfdp.Send.C18_send_ignores_finished_without_closure", "Cfdp.Recv.C18_recv_closure_ends_quietly"],
+              "Cfdp.Send.C18_send_ignores_finished_without_closure", "Cfdp.Recv.C18_recv_closure_ends_quietly", "C18_send_data_once"],
     engines=["recv", "send"],
     design="§6 C18",
     technique="Lean 4 invariant proofs over all event histories of the receiver model, step theorems on the sender model + differential correspondence",
@@ -273,7 +272,7 @@ PROPS["C18"] = dict(
                 "Complete the metadata is present and for a file transfer the EOF has arrived and the segment list covers [0, size) (C18_complete_means_complete, with C09's "
                 "isComplete_iff); the sender without closure is Terminated by transmitting its EOF and tells the user (C18_send_ends_on_eof), with closure no "
                 "transmission ends it (C18_send_waits) and the Finished PDU ends it with the receiver's condition and delivery code in the user's Finished indication "
-                "(C18_send_reports_outcome); without closure a Finished PDU is rejected as unexpected. Tie to the code: recv/send engines; oracles recv_silent_link, "
+                "(C18_send_reports_outcome); without closure a Finished PDU is rejected as unexpected; over every history the file-data PDUs an unacknowledged sender transmits, in order, are the file cut into consecutive segments from offset 0 - data goes out exactly once, nothing is retransmitted whatever the peer sends (no request is ever queued) - and the EOF phase of a file transfer is reached only after the whole file (C18_send_data_once in Props/C18s.lean, from C07_first_pass); an unacknowledged receiver repeating its closure Finished PDU ends quietly at the first limit (C18_recv_closure_ends_quietly). Tie to the code: recv/send engines; oracles recv_silent_link, "
                 "complete_without_data, delivery_code_complete_without_data, send_shape, closure_wait, no_closure_end."),
     level_note=RECV_SEND_NOTE + " 'The sender transmits metadata, the file data once and EOF' is C07's first-pass statement (send engine oracle send_shape); "
                "that the sender waits 'up to its limits' is C17.",
@@ -281,7 +280,7 @@ PROPS["C18"] = dict(
           "prompts, duplicates, wrong checksums, short EOFs, rejected destinations; send engine: unacknowledged histories with and without closure, Finished PDUs with every outcome, "
           "stray NAK/ACK/keep-alive PDUs. Non-trivial = a PDU was emitted or an indication raised."),
     assumptions=[],
-    unproved=["the sender's transmission sequence metadata - data once - EOF as a whole-history statement (oracle send_shape; per-PDU truthfulness is C07)"],
+    unproved=[],
 )
 
 PROPS["C08"] = dict(
